@@ -59,13 +59,29 @@ PROPS = {
     ),
 }
 
-KEY_ACTIONS = ('RecvLight', 'PoolUpdate', 'Expire', 'Tick', 'Probe')
-
-
-def _coverage_guard(res, cfg):
-    zeros = [z for z in res.get('zero_actions') or [] if any(('<' + a + ' ') in z for a in KEY_ACTIONS)]
-    if zeros:
-        raise vlib.Broken('vacuous model-checking run %s: actions never taken: %s' % (cfg, zeros))
+def _coverage_guard(ctx, res, cfg):
+    """-coverage 1 on the plain Next: every action / disjunct of Next must have been taken, except the two
+    disjuncts the configuration switches off (SetPool with InitPools="empty", RecvMalformed with no classes)."""
+    import re
+    src = open(os.path.join(vlib.SPEC, 'P2PRecv', 'P2PRecv.tla')).read().splitlines()
+    seen = 0
+    bad = []
+    for line in res['out'].splitlines():
+        m = re.match(r'^<(\w+) line (\d+), col \d+ to line \d+, col \d+ of module P2PRecv(?: \((\d+) \d+ \d+ \d+\))?>: (\d+):(\d+)', line)
+        if not m:
+            continue
+        seen += 1
+        if int(m.group(5)) > 0:
+            continue
+        srcline = src[int(m.group(3) or m.group(2)) - 1]
+        if 'SetPool' in srcline or 'RecvMalformed' in srcline:
+            continue
+        bad.append(line.strip())
+    if seen < 5:
+        raise vlib.Broken('coverage output of %s not understood' % cfg)
+    if bad:
+        raise vlib.Broken('vacuous model-checking run %s: actions never taken: %s' % (cfg, bad))
+    ctx.extra['coverage_all_actions_taken'] = cfg
 
 
 def _selftest(ctx, b, bs, opts):
@@ -162,10 +178,11 @@ def run(ctx):
     b = vlib.build(DRIVER)
 
     # 1. the properties on the mechanism model
-    r = ctx.tlc_mc('P2PRecv_MC', 'P2PRecv_MCq.cfg', workers=2 if q else 4, timeout=3600, coverage=not q)
+    ctx.tlc_mc('P2PRecv_MC', 'P2PRecv_MCq.cfg', workers=2 if q else 4, timeout=3600)
     if not q:
-        _coverage_guard(r, 'P2PRecv_MCq.cfg')
         ctx.tlc_mc('P2PRecv_MC', 'P2PRecv_MC.cfg', workers=4, timeout=7200)
+        r = ctx.tlc_mc('P2PRecv_MC', 'P2PRecv_MCcov.cfg', workers=2, timeout=3600, coverage=True, count=False)
+        _coverage_guard(ctx, r, 'P2PRecv_MCcov.cfg')
     # anti-vacuity: the mechanism without the repaired bounds check must violate Alive
     bad = ctx.tlc_mc('P2PRecv_MC', 'P2PRecv_MCbad.cfg', workers=2, timeout=3600, expect_violation=True, count=False)
     if bad['violation'] != 'Alive':
@@ -187,7 +204,7 @@ def run(ctx):
             raise vlib.Broken('no exported behaviour completes a block in a loop iteration')
         ctx.replay(b, tb, opts=dict(noval=1), par=8, timeout=7200, count=False)
         ctx.replay(b, tb, opts=dict(dual=1), par=8, timeout=7200, count=False)
-        n = 150 if q else 1200
+        n = 150 if q else 600
         for k, opts in enumerate([dict(fuzz=2), dict(fuzz=2, noval=1), dict(fuzz=2, dual=1)]):
             bs = ctx.tlc_sim('P2PRecv_MC', 'P2PRecv_Gen.cfg', num=n if k == 0 else n // 2, depth=12, seed=ctx.seed * 10 + k)
             ctx.replay(b, bs, opts=opts, par=8, timeout=7200)
@@ -197,7 +214,7 @@ def run(ctx):
                 ctx.replay(b, bs, opts=dict(fuzz=6, salt=sd), par=8, timeout=7200)
             import random
             rnd = random.Random(ctx.seed)
-            sample = rnd.sample(allb, min(4000, len(allb)))
+            sample = rnd.sample(allb, min(2000, len(allb)))
             ctx.replay(b, sample, opts=dict(noval=1), par=8, timeout=7200, count=False)
             ctx.replay(b, sample, opts=dict(dual=1), par=8, timeout=7200, count=False)
         _selftest(ctx, b, allb, dict(fuzz=2))
